@@ -40,6 +40,23 @@ def gen_merge_pair(rng):
         t = rng.choice(c1["a"])
         if set(t[0]) <= set(i2):
             c2["a"].append(rng.choice([t, gen.scaled(rng, t)]))
+    # look-alikes that are NOT duplicates: same variables, same constant, some but not all coefficients equal
+    def lookalike(t):
+        vs_ = list(t[0])
+        if len(vs_) < 2:
+            return None
+        lin = dict(t[0])
+        v = rng.choice(vs_)
+        # (the last factor: equal up to 4e-6 relative -- still a different constraint, by 4e-3 at the edge of the box)
+        lin[v] = lin[v] * rng.choice([F(2), F(-1), F(1, 2), F(3), 1 + F(1, 2 ** 18), 1 + F(1, 2 ** 18)])
+        return (lin, t[1])
+    if rng.random() < 0.35:
+        for role, pool2 in (("g", i2 + o2), ("a", i2)):
+            cands = [t for t in c1[role] if len(t[0]) >= 2 and set(t[0]) <= set(pool2)]
+            if cands:
+                la = lookalike(rng.choice(cands))
+                if la:
+                    c2[role].append(la)
     return mode, c1, c2
 
 
